@@ -2,5 +2,6 @@ SPECIFICATION Spec
 CONSTANTS
   Edges = {"a", "b", "c"}
   Vals = {1, 2, 3}
+  LenVals = {0, 2}
 INVARIANT Emitted
 INVARIANT AltInherits
